@@ -39,6 +39,7 @@ class Model:
         self.dx = [list(x) for x in dx]
         self.grid_sizes = [list(x) for x in grid_sizes]
         self.levels = levels       # list of {key: dict(phys, data, mins, maxs)}
+        self.coord_sys = None      # coordinate system line of the Header (part of the geometry), when known
 
     @classmethod
     def from_ref(cls, ref):
@@ -50,8 +51,10 @@ class Model:
                                        mins=None if lev["mins"] is None else list(lev["mins"][b]),
                                        maxs=None if lev["maxs"] is None else list(lev["maxs"][b]))
             levels.append(d)
-        return cls(ref["fields"], ref["ndims"], ref["time"], ref["geo_lo"], ref["geo_hi"],
-                   ref["dx"], ref["grid_sizes"], levels)
+        m = cls(ref["fields"], ref["ndims"], ref["time"], ref["geo_lo"], ref["geo_hi"],
+                ref["dx"], ref["grid_sizes"], levels)
+        m.coord_sys = ref.get("coord_sys", "").strip() or None
+        return m
 
     def select(self, fi, L=None):
         """filter / reorder fields, truncate levels"""
@@ -62,8 +65,10 @@ class Model:
                                    mins=None if b["mins"] is None else [b["mins"][i] for i in fi],
                                    maxs=None if b["maxs"] is None else [b["maxs"][i] for i in fi])
                            for k, b in lev.items()})
-        return Model([self.fields[i] for i in fi], self.ndims, self.time, self.geo_lo, self.geo_hi,
-                     self.dx[:L + 1], self.grid_sizes[:L + 1], levels)
+        m = Model([self.fields[i] for i in fi], self.ndims, self.time, self.geo_lo, self.geo_hi,
+                  self.dx[:L + 1], self.grid_sizes[:L + 1], levels)
+        m.coord_sys = self.coord_sys
+        return m
 
     def concat(self, other, fi1, fi2):
         """fields fi1 of self followed by fields fi2 of other, box by box (same index range)"""
@@ -78,8 +83,10 @@ class Model:
                             mins=None if ba["mins"] is None or bb["mins"] is None else ba["mins"] + bb["mins"],
                             maxs=None if ba["maxs"] is None or bb["maxs"] is None else ba["maxs"] + bb["maxs"])
             levels.append(d)
-        return Model(a.fields + b.fields, self.ndims, self.time, self.geo_lo, self.geo_hi, self.dx,
-                     self.grid_sizes, levels)
+        m = Model(a.fields + b.fields, self.ndims, self.time, self.geo_lo, self.geo_hi, self.dx,
+                  self.grid_sizes, levels)
+        m.coord_sys = self.coord_sys
+        return m
 
     def with_true_minmax(self):
         for lev in self.levels:
@@ -110,6 +117,8 @@ def compare_model(model, out, fields_as="ordered", minmax="rows", rtol_minmax=0.
         v.append(f"ndims {out['ndims']} != {model.ndims}")
     if time and not refread.float_rows_equal([out["time"]], [model.time]):
         v.append(f"time {out['time']!r} != {model.time!r}")
+    if model.coord_sys is not None and out.get("coord_sys", "").strip() != model.coord_sys:
+        v.append(f"coordinate system line {out.get('coord_sys')!r} != input's {model.coord_sys!r}")
     if out["geo_lo"] != model.geo_lo or out["geo_hi"] != model.geo_hi:
         v.append(f"domain bounds {out['geo_lo']}..{out['geo_hi']} != {model.geo_lo}..{model.geo_hi}")
     if out["max_level"] != len(model.levels) - 1:
